@@ -103,6 +103,11 @@ pub struct ResolveManySerialized { _p: u8 }
 /// dyn erased_serde::Deserializer (the response body)
 #[verifier::external_body]
 pub struct ErasedDeserializer { _p: u8 }
+impl ErasedDeserializer {
+    /// an erased deserializer can be read ONCE (erased-serde 0.4 takes the concrete deserializer out
+    /// of an Option; a second use panics with `Option::unwrap()` on `None`)
+    pub uninterp spec fn used(&self) -> bool;
+}
 /// erased_serde::Error
 #[verifier::external_body]
 pub struct SerdeError { _p: u8 }
@@ -149,12 +154,18 @@ impl ResolveSerialized {
     // ResolveSerialized::resolve, harnesses a_resolve_serialized_contract_*): the arity transition.
     #[verifier::external_body]
     pub fn resolve(&mut self, bytes: &mut ErasedDeserializer) -> (r: Result<(), BridgeError>)
+        requires
+            kind(*old(self)) != 0 ==> !old(bytes).used(),
         ensures
             r == resolve_result(*old(self), *old(bytes)),
             *final(self) == resolve_next(*old(self), *old(bytes)),
             kind(*old(self)) == 0 ==> kind(*final(self)) == 0 && r == Err::<(), BridgeError>(BridgeError::ProcessResponse(ResolveError::Never)),
             kind(*old(self)) == 1 ==> kind(*final(self)) == 0,
             kind(*old(self)) == 2 ==> kind(*final(self)) == 2,
+            // a notification's body is not read; a one-shot's and a stream's continuation deserialize it
+            // first (Kani unit A: Resolve::deserializing reads before it calls)
+            kind(*old(self)) == 0 ==> final(bytes).used() == old(bytes).used(),
+            kind(*old(self)) != 0 ==> final(bytes).used(),
     { unimplemented!() }
 }
 
@@ -194,7 +205,10 @@ impl ResolveRegistry {
 //@contract
         requires
             old(self)@.dom().contains(id.0 as usize), // a response to an OUTSTANDING request (for other ids the code panics, as documented)
+            !old(body).used(),
         ensures
+            kind(old(self)@[id.0 as usize]) != 0 ==> final(body).used(), // [C12/resume/the-response-body-is-read-by-the-addressed-continuation]
+            kind(old(self)@[id.0 as usize]) == 0 ==> !final(body).used(),
             forall|k: usize| #![auto] k != id.0 as usize ==> (final(self)@.dom().contains(k) <==> old(self)@.dom().contains(k)), // [C02+C09+C12+C13/resume/no-other-entry-added-or-removed]
             forall|k: usize| #![auto] k != id.0 as usize && old(self)@.dom().contains(k) ==> final(self)@[k] == old(self)@[k], // [C02+C09+C12/resume/no-other-entry-touched-even-when-rejected]
             r == resolve_result(old(self)@[id.0 as usize], *old(body)), // [C02+C09+C12/resume/result-is-the-addressed-entrys-own-resolution]
@@ -217,14 +231,27 @@ pub struct ErasedSerializer { _p: u8 }
 impl ErasedSerializer {
     pub uninterp spec fn written(&self) -> Seq<Seq<u32>>;
 }
+/// serde names a body may mention (only as type arguments of `deserialize`)
+pub mod serde { pub mod de { pub struct IgnoredAny; } }
 pub mod erased_serde {
     use super::*;
     // ASSUMED: returns Ok or Err for any input (bincode/serde_json do not panic, hang or
     // over-allocate on arbitrary bytes - third party, for all byte strings: out of reach)
     #[verifier::external_body]
     pub fn deserialize<T>(d: &mut ErasedDeserializer) -> (r: Result<T, SerdeError>)
+        requires !old(d).used(),
+        ensures final(d).used(),
     { unimplemented!() }
 }
+/// `<dyn erased_serde::Deserializer>::erase(d)` / `<dyn erased_serde::Serializer>::erase(s)`: a fresh,
+/// unread erased deserializer over the shell's bytes / an erased serializer with nothing written
+#[verifier::external_body]
+pub fn erase_de<D>(d: D) -> (r: ErasedDeserializer)
+    ensures !r.used(),
+{ unimplemented!() }
+#[verifier::external_body]
+pub fn erase_ser<S>(s: S) -> (r: ErasedSerializer)
+{ unimplemented!() }
 pub open spec fn ids_of<E: Serialize>(v: Seq<Request<E>>) -> Seq<u32> {
     v.map_values(|r: Request<E>| r.id.0)
 }
@@ -308,17 +335,44 @@ impl<A> BridgeWithSerializer<A>
 where
     A: App,
 {
+//@extract id=BridgeWithSerializer::process_event file=crux_core/src/bridge/mod.rs within="impl<A> BridgeWithSerializer<A>" item="fn process_event" props=C09+C12
+//@expect pub fn process_event<'de, D, S>(&self, event: D, requests_out: S) -> Result<(), BridgeError> where for<'a> A::Event: Deserialize<'a>, D: ::serde::de::Deserializer<'de> + 'de, S: ::serde::ser::Serializer,
+//@sig fn process_event<D, S>(&mut self, event: D, requests_out: S) -> (r: Result<(), BridgeError>)
+//@contract
+        ensures
+            (r matches Err(BridgeError::DeserializeEvent(_))) ==> final(self).core == old(self).core && final(self).registry@ == old(self).registry@, // [C12/process_event/a-rejected-event-leaves-core-and-registry-exactly-as-they-were]
+            r is Err ==> (r matches Err(BridgeError::DeserializeEvent(_))) || (r matches Err(BridgeError::SerializeRequests(_))), // [C12/process_event/errors-are-error-values-of-the-event-path]
+            kept(old(self).registry@, final(self).registry@), // [C09+C12/process_event/an-event-never-disturbs-outstanding-requests]
+//@rule X5.erase * s/<dyn erased_serde::Deserializer>::erase\((\w+)\)/erase_de(\1)/
+//@rule X5.erase * s/<dyn erased_serde::Serializer>::erase\((\w+)\)/erase_ser(\1)/
+//@end
+
+//@extract id=BridgeWithSerializer::handle_response file=crux_core/src/bridge/mod.rs within="impl<A> BridgeWithSerializer<A>" item="fn handle_response" props=C02+C09+C12
+//@expect pub fn handle_response<'de, D, S>( &self, id: u32, response: D, requests_out: S, ) -> Result<(), BridgeError> where for<'a> A::Event: Deserialize<'a>, D: ::serde::de::Deserializer<'de>, S: ::serde::ser::Serializer,
+//@sig fn handle_response<D, S>(&mut self, id: u32, response: D, requests_out: S) -> (r: Result<(), BridgeError>)
+//@contract
+        requires
+            old(self).registry@.dom().contains(id as usize), // a response to an OUTSTANDING request
+        ensures
+            r is Err && !(r matches Err(BridgeError::SerializeRequests(_))) ==> final(self).core == old(self).core, // [C12/handle_response/a-rejected-response-never-reaches-the-core]
+            r is Err && !(r matches Err(BridgeError::SerializeRequests(_))) ==> (forall|k: usize| #![trigger final(self).registry@.dom().contains(k)] k != id as usize ==> (final(self).registry@.dom().contains(k) <==> old(self).registry@.dom().contains(k)) && (old(self).registry@.dom().contains(k) ==> final(self).registry@[k] == old(self).registry@[k])), // [C02+C09+C12/handle_response/a-rejected-response-touches-at-most-the-request-issued-under-exactly-this-id]
+//@rule X5.erase * s/<dyn erased_serde::Deserializer>::erase\((\w+)\)/erase_de(\1)/
+//@rule X5.erase * s/<dyn erased_serde::Serializer>::erase\((\w+)\)/erase_ser(\1)/
+//@end
+
 //@extract id=BridgeWithSerializer::process file=crux_core/src/bridge/mod.rs within="impl<A> BridgeWithSerializer<A>" item="fn process" props=C09+C12
 //@expect fn process( &self, id: Option<EffectId>, data: &mut dyn erased_serde::Deserializer, requests_out: &mut dyn erased_serde::Serializer, ) -> Result<(), BridgeError> where A::Event: for<'a> Deserialize<'a>,
 //@sig fn process(&mut self, id: Option<EffectId>, data: &mut ErasedDeserializer, requests_out: &mut ErasedSerializer) -> (r: Result<(), BridgeError>)
 //@contract
         requires
             id is Some ==> old(self).registry@.dom().contains((id->0).0 as usize), // a response to an OUTSTANDING request
+            !old(data).used(),
         ensures
+            final(data).used() || (id is Some && kind(old(self).registry@[(id->0).0 as usize]) == 0), // [C12/process/the-erased-input-is-read-exactly-once-unless-addressed-to-a-notification]
             id is None && (r matches Err(BridgeError::DeserializeEvent(_))) ==> final(self).core == old(self).core && final(self).registry@ == old(self).registry@ && final(requests_out).written() == old(requests_out).written(), // [C12/process/a-rejected-event-leaves-core-registry-and-output-exactly-as-they-were]
             id is None && r is Err ==> (r matches Err(BridgeError::DeserializeEvent(_))) || (r matches Err(BridgeError::SerializeRequests(_))), // [C12/process/event-path-errors-are-error-values]
             id is Some && r is Err && !(r matches Err(BridgeError::SerializeRequests(_))) ==> final(self).core == old(self).core && final(requests_out).written() == old(requests_out).written(), // [C12/process/a-rejected-response-never-reaches-the-core]
-            id is Some && r is Err && !(r matches Err(BridgeError::SerializeRequests(_))) ==> (forall|k: usize| #![auto] k != (id->0).0 as usize ==> (final(self).registry@.dom().contains(k) <==> old(self).registry@.dom().contains(k)) && (old(self).registry@.dom().contains(k) ==> final(self).registry@[k] == old(self).registry@[k])), // [C12/process/a-rejected-response-touches-at-most-the-addressed-request]
+            id is Some && r is Err && !(r matches Err(BridgeError::SerializeRequests(_))) ==> (forall|k: usize| #![trigger final(self).registry@.dom().contains(k)] k != (id->0).0 as usize ==> (final(self).registry@.dom().contains(k) <==> old(self).registry@.dom().contains(k)) && (old(self).registry@.dom().contains(k) ==> final(self).registry@[k] == old(self).registry@[k])), // [C12/process/a-rejected-response-touches-at-most-the-addressed-request]
             r is Ok ==> final(requests_out).written().len() == old(requests_out).written().len() + 1, // [C09/process/exactly-one-batch-of-requests-written]
             r is Ok && id is None ==> (forall|i: int| #![auto] 0 <= i < final(requests_out).written().last().len() ==> !old(self).registry@.dom().contains(final(requests_out).written().last()[i] as usize)), // [C09/process/new-ids-distinct-from-every-outstanding-id]
             id is None ==> kept(old(self).registry@, final(self).registry@), // [C09+C12/process/an-event-never-disturbs-outstanding-requests]
